@@ -9,12 +9,12 @@ package req
 // wrapper/clone programs — with the reference-aware model (Heap.runHeap) by `c19heap`.
 
 import (
-	"os"
-	"runtime/debug"
 	"fmt"
 	"math/rand"
 	"net/http"
 	urlpkg "net/url"
+	"os"
+	"runtime/debug"
 	"strconv"
 	"strings"
 	"testing"
@@ -492,6 +492,7 @@ func (g *c19Gen) setter(o int) c19Op {
 			if isReq {
 				q.EnableDump()
 			} else {
+				w.checkDumpLink(c)
 				c.EnableDumpAllTo(w.bufs[wid])
 			}
 		})
@@ -501,6 +502,7 @@ func (g *c19Gen) setter(o int) c19Op {
 			if isReq {
 				v.r(q)
 			} else {
+				w.checkDumpLink(c)
 				if c.dumpOptions == nil || c.dumpOptions.Output == nil {
 					// keep the dump out of the test's stdout: a real caller's default
 					c.getDumpOptions().Output = w.bufs[0]
@@ -549,7 +551,10 @@ func (g *c19Gen) setter(o int) c19Op {
 		})
 	case "tc":
 		id := 1 + r.Intn(9)
-		return one(code, S("tc,%d", id), func(w *c19World, c *Client, q *Request) { c.SetCerts(c19TLSCert(id)) })
+		return one(code, S("tc,%d", id), func(w *c19World, c *Client, q *Request) {
+			w.checkTLSShared(c, true)
+			c.SetCerts(c19TLSCert(id))
+		})
 	case "tr":
 		var free []int
 		for id := 1; id <= 4; id++ {
@@ -568,7 +573,10 @@ func (g *c19Gen) setter(o int) c19Op {
 		}
 		id := verifh.Pick(r, free)
 		g.roots = append(g.roots, id)
-		return one(code, S("tr,%d", id), func(w *c19World, c *Client, q *Request) { c.SetRootCertFromString(w.rootPEM[id]) })
+		return one(code, S("tr,%d", id), func(w *c19World, c *Client, q *Request) {
+			w.checkTLSShared(c, false)
+			c.SetRootCertFromString(w.rootPEM[id])
+		})
 	case "bd":
 		b := 1 + r.Intn(3)
 		variant := r.Intn(3)
@@ -718,7 +726,7 @@ func TestVerif_C19_prog(t *testing.T) {
 		run(ops, true)
 		s.Count("fixed")
 	}
-	n := verifh.N(700, 20000)
+	n := verifh.N(1500, 30000)
 	hist := map[string]int{}
 	for i := 0; i < n; i++ {
 		maxLen := 40
@@ -987,6 +995,7 @@ func c19ParseProgram(text string) ([]c19Op, error) {
 					if isReq {
 						q.EnableDump()
 					} else {
+						w.checkDumpLink(c)
 						c.EnableDumpAllTo(w.bufs[arg(1)])
 					}
 				}
@@ -997,6 +1006,7 @@ func c19ParseProgram(text string) ([]c19Op, error) {
 							if isReq {
 								v.r(q)
 							} else {
+								w.checkDumpLink(c)
 								v.c(c)
 							}
 						}
@@ -1011,9 +1021,12 @@ func c19ParseProgram(text string) ([]c19Op, error) {
 					}
 				}
 			case "tc":
-				f = func(w *c19World, c *Client, q *Request) { c.SetCerts(c19TLSCert(arg(1))) }
+				f = func(w *c19World, c *Client, q *Request) { w.checkTLSShared(c, true); c.SetCerts(c19TLSCert(arg(1))) }
 			case "tr":
-				f = func(w *c19World, c *Client, q *Request) { c.SetRootCertFromString(w.rootPEM[arg(1)]) }
+				f = func(w *c19World, c *Client, q *Request) {
+					w.checkTLSShared(c, false)
+					c.SetRootCertFromString(w.rootPEM[arg(1)])
+				}
 			case "bd":
 				f = func(w *c19World, c *Client, q *Request) { q.SetBodyString(fmt.Sprintf("QQbody%d", arg(1))) }
 			default:
